@@ -177,7 +177,21 @@ func runC07(c *core.Ctx) {
 					for _, s := range sw.Body.List {
 						cc := s.(*ast.CaseClause)
 						if core.CallsAny(ep.TypesInfo, cc, map[*types.Func]bool{failIfClosed: true}) == nil {
-							continue
+							// … or through a one-level helper of the package
+							via := false
+							ast.Inspect(cc, func(z ast.Node) bool {
+								if call, ok := z.(*ast.CallExpr); ok {
+									for _, h := range calledHelpers(ep, call, fd) {
+										if len(h.Body.List) <= 12 && core.CallsAny(ep.TypesInfo, h.Body, map[*types.Func]bool{failIfClosed: true}) != nil {
+											via = true
+										}
+									}
+								}
+								return true
+							})
+							if !via {
+								continue
+							}
 						}
 						for _, l := range cc.List {
 							if tv, ok := ep.TypesInfo.Types[l]; ok && tv.Value != nil {
@@ -480,35 +494,52 @@ func runC07(c *core.Ctx) {
 			for _, s := range g.Clause.Body {
 				topLevel[s] = true
 			}
-			ast.Inspect(g.Clause, func(n ast.Node) bool {
-				is, isIf := n.(*ast.IfStmt)
-				if !isIf || is.Init == nil || !topLevel[is] {
-					return true // the check must run unconditionally whenever the arm runs
-				}
-				as, isAs := is.Init.(*ast.AssignStmt)
-				if !isAs || len(as.Lhs) != 1 || len(as.Rhs) != 1 {
-					return true
-				}
-				call, isCall := as.Rhs[0].(*ast.CallExpr)
-				if !isCall || core.Callee(g.Pkg.TypesInfo, call) != failIfClosed {
-					return true
-				}
-				errObj := g.Pkg.TypesInfo.Defs[as.Lhs[0].(*ast.Ident)]
-				be, isBin := is.Cond.(*ast.BinaryExpr)
-				if !isBin || be.Op != token.NEQ {
-					return true
-				}
-				for _, s := range is.Body.List {
-					if es, isES := s.(*ast.ExprStmt); isES {
-						if pc, isC := es.X.(*ast.CallExpr); isC && core.IsBuiltin(g.Pkg.TypesInfo, pc, "panic") && len(pc.Args) == 1 {
-							if id, isID := pc.Args[0].(*ast.Ident); isID && g.Pkg.TypesInfo.Uses[id] == errObj {
-								ok = true
+			// the arm may delegate to a one-level helper called unconditionally: its top-level statements count as the arm's
+			var scan []ast.Node
+			scan = append(scan, g.Clause)
+			for _, st := range g.Clause.Body {
+				if es, ok := st.(*ast.ExprStmt); ok {
+					if call, ok := es.X.(*ast.CallExpr); ok {
+						for _, h := range calledHelpers(g.Pkg, call, g.Fn) {
+							for _, hs := range h.Body.List {
+								topLevel[hs] = true
 							}
+							scan = append(scan, h.Body)
 						}
 					}
 				}
-				return true
-			})
+			}
+			for _, root := range scan {
+				ast.Inspect(root, func(n ast.Node) bool {
+					is, isIf := n.(*ast.IfStmt)
+					if !isIf || is.Init == nil || !topLevel[is] {
+						return true // the check must run unconditionally whenever the arm runs
+					}
+					as, isAs := is.Init.(*ast.AssignStmt)
+					if !isAs || len(as.Lhs) != 1 || len(as.Rhs) != 1 {
+						return true
+					}
+					call, isCall := as.Rhs[0].(*ast.CallExpr)
+					if !isCall || core.Callee(g.Pkg.TypesInfo, call) != failIfClosed {
+						return true
+					}
+					errObj := g.Pkg.TypesInfo.Defs[as.Lhs[0].(*ast.Ident)]
+					be, isBin := is.Cond.(*ast.BinaryExpr)
+					if !isBin || be.Op != token.NEQ {
+						return true
+					}
+					for _, s := range is.Body.List {
+						if es, isES := s.(*ast.ExprStmt); isES {
+							if pc, isC := es.X.(*ast.CallExpr); isC && core.IsBuiltin(g.Pkg.TypesInfo, pc, "panic") && len(pc.Args) == 1 {
+								if id, isID := pc.Args[0].(*ast.Ident); isID && g.Pkg.TypesInfo.Uses[id] == errObj {
+									ok = true
+								}
+							}
+						}
+					}
+					return true
+				})
+			}
 			c.Check(ok, "R07.2", e.name+" go-side in "+core.FuncName(g.Pkg, g.Fn), g.Clause.Pos(), "calls FailIfClosed and panics with its error",
 				"the Go side of the termination check does not unconditionally call FailIfClosed and panic with its error: a closed module (e.g. closed with exit code 0) keeps running")
 		}
@@ -831,6 +862,31 @@ func checkWatcherModule(c *core.Ctx) {
 									if se, ok := call.Fun.(*ast.SelectorExpr); ok && se.Sel.Name == "FailIfClosed" {
 										checked = append(checked, accessPath(info, fd, se.X))
 									}
+									// a helper method of the same receiver that does the polling (one level): its access paths
+									// are relative to the same receiver
+									for _, h := range calledHelpers(p, call, fd) {
+										ast.Inspect(h.Body, func(w ast.Node) bool {
+											if c2, ok := w.(*ast.CallExpr); ok {
+												if s2, ok := c2.Fun.(*ast.SelectorExpr); ok && s2.Sel.Name == "FailIfClosed" {
+													pth := accessPath(info, h, s2.X)
+													// a parameter of the helper stands for the argument passed at the call
+													if strings.HasPrefix(pth, "param:") {
+														idx := 0
+														for _, fl := range h.Type.Params.List {
+															for _, nm := range fl.Names {
+																if "param:"+nm.Name == pth && idx < len(call.Args) {
+																	pth = accessPath(info, fd, call.Args[idx])
+																}
+																idx++
+															}
+														}
+													}
+													checked = append(checked, pth)
+												}
+											}
+											return true
+										})
+									}
 								}
 								return true
 							})
@@ -916,4 +972,20 @@ func checkFlagBeforeLock(c *core.Ctx) {
 	if n == 0 {
 		c.Undecided("R07.5", "context-done path", 0, "no ModuleInstance method both sets the exit code and calls a locking Store method")
 	}
+}
+
+// calledHelpers returns the declarations, in package p, of the function called by call (empty for other packages, builtins
+// and for from itself).
+func calledHelpers(p *packages.Package, call *ast.CallExpr, from *ast.FuncDecl) []*ast.FuncDecl {
+	f := core.Callee(p.TypesInfo, call)
+	if f == nil {
+		return nil
+	}
+	var out []*ast.FuncDecl
+	core.AllFuncDecls(p, func(g *ast.FuncDecl) {
+		if p.TypesInfo.Defs[g.Name] == types.Object(f) && g != from && g.Body != nil {
+			out = append(out, g)
+		}
+	})
+	return out
 }
